@@ -14,12 +14,21 @@ Regs == 0..3
 IsOk(r) == regs[r].st = "ok"
 Alloc(r) == regs[r].st # "none"
 Ks == {B, 2 * B, 3 * B, 5 * B, KMax - B, KMax}
-Step(op, d, a, b, bits, rot, k, ld, plb, vec) == [op |-> op, d |-> d, a |-> a, b |-> b, bits |-> bits, rot |-> rot, k |-> k, ld |-> ld, plb |-> plb, vec |-> vec]
+Step(op, d, a, b, bits, rot, k, ld, plb, vec) ==
+  [op |-> op, d |-> d, a |-> a, b |-> b, bits |-> bits, rot |-> rot, k |-> k, ld |-> ld, plb |-> plb, vec |-> vec, pld |-> 0, pplb |-> 0, pmag |-> 0, cst |-> 0, c |-> 0]
+\* a step with a plaintext operand of precision (pld, pplb): a test vector (|v| <= 1) or a constant of the harness' table (|c| < 2)
+PStep(op, d, a, b, vec, cst, pld, pplb, isc) == [Step(op, d, a, b, 0, 0, 0, 0, 0, vec) EXCEPT !.pld = pld, !.pplb = pplb, !.pmag = IF isc THEN 1 ELSE 0, !.cst = cst]
+Plds == {12, 20, 30, 40}
+Pplbs == {0, 6, B, 30}
 \* the values must stay below the headroom and inside the window the harness decodes (2^30)
 Do(s) == LET o == Outcome(regs, s) IN
          /\ InHeadroom(o.reg) /\ o.reg.mag <= 30
          /\ regs' = [regs EXCEPT ![s.d] = o.reg] /\ prog' = Append(prog, s) /\ fam' = "" /\ UNCHANGED <<done, be>>
 
+\* a product whose ciphertext operand stores more limbs than its metadata spans panics (known finding
+\* F-C16-mul-panics-on-spare-limbs): such a step ends the program, so it is only generated as the LAST step
+NoSpare(r) == DivCeil2(Ek(regs[r]), B) * B = regs[r].maxk
+LastStep == Len(prog) = Depth - 1
 Init == regs = [r \in Regs |-> None] /\ prog = <<>> /\ done = FALSE /\ fam = "" /\ be \in Bes
 Enc == \E d \in Regs, k \in Ks, ld \in Lds, plb \in {4, 10}, v \in {0, 1} : Do(Step("enc", d, 0, 0, 0, 0, k, ld, plb, v))
 AllocD == \E d \in Regs, k \in Ks : Do(Step("alloc", d, 0, 0, 0, 0, k, 0, 0, 0))
@@ -41,19 +50,39 @@ Mul == \E op \in {"mul_into", "mul_assign", "square_into", "square_assign"}, d, 
          /\ IsOk(a) /\ IsOk(b)
          /\ (IF op \in {"mul_assign", "square_assign"} THEN d = a ELSE (Alloc(d) /\ d # a /\ d # b))
          /\ (op = "mul_assign" => b # d)
+         /\ (LastStep \/ (NoSpare(a) /\ (op \in {"mul_into", "mul_assign"} => NoSpare(b))))
          /\ Do(Step(op, d, a, b, 0, 0, 0, 0, 0, 0))
+\* plaintext operands: ct (+-*) vector / constant, out of place and in place; fused dst (+-)= a * (ct | vector | constant); add_many
+PtInto == \E op \in {"add_ptv_into", "sub_ptv_into", "mul_ptv_into", "add_ptc_into", "sub_ptc_into", "mul_ptc_into"}, d, a \in Regs, pld \in Plds, pplb \in Pplbs, v \in 0..3 :
+         /\ IsOk(a) /\ Alloc(d) /\ d # a
+         /\ (op = "mul_ptv_into" => LastStep \/ NoSpare(a))
+         /\ Do(PStep(op, d, a, 0, v % 2, v, pld, pplb, op \in {"add_ptc_into", "sub_ptc_into", "mul_ptc_into"}))
+PtAssign == \E op \in {"add_ptv_assign", "sub_ptv_assign", "mul_ptv_assign", "add_ptc_assign", "sub_ptc_assign", "mul_ptc_assign"}, d \in Regs, pld \in Plds, pplb \in Pplbs, v \in 0..3 :
+         /\ IsOk(d)
+         /\ (op = "mul_ptv_assign" => LastStep \/ NoSpare(d))
+         /\ Do(PStep(op, d, d, 0, v % 2, v, pld, pplb, op \in {"add_ptc_assign", "sub_ptc_assign", "mul_ptc_assign"}))
+FusedCt == \E op \in {"mul_add_ct", "mul_sub_ct"}, d, a, b \in Regs : IsOk(d) /\ IsOk(a) /\ IsOk(b) /\ d # a /\ d # b /\ (LastStep \/ (NoSpare(a) /\ NoSpare(b))) /\ Do(Step(op, d, a, b, 0, 0, 0, 0, 0, 0))
+FusedOp == \E op \in {"mul_add_ptv", "mul_sub_ptv", "mul_add_ptc", "mul_sub_ptc"}, d, a \in Regs, pld \in Plds, pplb \in Pplbs, v \in 0..3 :
+                /\ IsOk(d) /\ IsOk(a) /\ d # a
+                /\ (op \in {"mul_add_ptv", "mul_sub_ptv"} => LastStep \/ NoSpare(a))
+                /\ Do(PStep(op, d, a, 0, v % 2, v, pld, pplb, op \in {"mul_add_ptc", "mul_sub_ptc"}))
+AddMany == \E d, a, b, c \in Regs, cnt \in 1..3 :
+         /\ Alloc(d) /\ IsOk(a) /\ d # a /\ (cnt >= 2 => IsOk(b) /\ d # b) /\ (cnt >= 3 => IsOk(c) /\ d # c)
+         /\ Do([Step("add_many", d, a, b, cnt, 0, 0, 0, 0, 0) EXCEPT !.c = c])
 Realloc == \E d \in Regs, sz \in 1..8 : IsOk(d) /\ Do(Step("realloc", d, d, 0, sz, 0, 0, 0, 0, 0))
 Finish == /\ Len(prog) = Depth /\ ~done /\ done' = TRUE
           /\ PrintT(<<"PROG", ToJson([n |-> 2 ^ LogN, b |-> B, kmax |-> KMax, be |-> be, prog |-> prog])>>)
           /\ UNCHANGED <<regs, prog, fam, be>>
 \* two-phase choice (family first, then parameters) so that every operation family is equally likely in simulation
-Fams == {"enc", "alloc", "uninto", "unassign", "rot", "pow2", "addsub", "mul", "realloc"}
+Fams == {"enc", "alloc", "uninto", "unassign", "rot", "pow2", "addsub", "mul", "realloc", "ptinto", "ptassign", "fused", "fusedct", "addmany"}
 Enabled(f) == CASE f = "enc" -> ENABLED Enc [] f = "alloc" -> ENABLED AllocD [] f = "uninto" -> ENABLED UnInto [] f = "unassign" -> ENABLED UnAssign
-                [] f = "rot" -> ENABLED Rot [] f = "pow2" -> ENABLED Pow2 [] f = "addsub" -> ENABLED AddSub [] f = "mul" -> ENABLED Mul [] OTHER -> ENABLED Realloc
+                [] f = "rot" -> ENABLED Rot [] f = "pow2" -> ENABLED Pow2 [] f = "addsub" -> ENABLED AddSub [] f = "mul" -> ENABLED Mul
+                [] f = "ptinto" -> ENABLED PtInto [] f = "ptassign" -> ENABLED PtAssign [] f = "fused" -> ENABLED FusedOp [] f = "fusedct" -> ENABLED FusedCt [] f = "addmany" -> ENABLED AddMany [] OTHER -> ENABLED Realloc
 Pick == /\ fam = "" /\ Len(prog) >= 2 /\ Len(prog) < Depth /\ \E f \in Fams : Enabled(f) /\ fam' = f /\ UNCHANGED <<regs, prog, done, be>>
 DoFam == /\ fam # ""
          /\ CASE fam = "enc" -> Enc [] fam = "alloc" -> AllocD [] fam = "uninto" -> UnInto [] fam = "unassign" -> UnAssign
-              [] fam = "rot" -> Rot [] fam = "pow2" -> Pow2 [] fam = "addsub" -> AddSub [] fam = "mul" -> Mul [] OTHER -> Realloc
+              [] fam = "rot" -> Rot [] fam = "pow2" -> Pow2 [] fam = "addsub" -> AddSub [] fam = "mul" -> Mul
+              [] fam = "ptinto" -> PtInto [] fam = "ptassign" -> PtAssign [] fam = "fused" -> FusedOp [] fam = "fusedct" -> FusedCt [] fam = "addmany" -> AddMany [] OTHER -> Realloc
 Next == \/ /\ Len(prog) < 2 /\ fam = "" /\ Enc
         \/ Pick \/ DoFam
         \/ Finish
